@@ -138,7 +138,7 @@ func check(c Case) vk.Verdict {
 	if c.FuncAllows != nil {
 		cfg.AllowOriginsFunc = func(o string) bool {
 			for _, f := range c.FuncAllows {
-				if f == o {
+				if strings.EqualFold(f, o) { // an allow function that does not care how its argument is spelled
 					return true
 				}
 			}
@@ -278,7 +278,7 @@ func genCase(t *rapid.T) Case {
 		c.Entries = append(c.Entries, e)
 	}
 	if rapid.IntRange(0, 3).Draw(t, "func") == 0 {
-		c.FuncAllows = []string{"https://func.test", "http://func.test:81"}
+		c.FuncAllows = []string{"https://func.test", "http://func.test:81", "https://m\u00fcnchen.func.test"}
 	}
 	if rapid.Bool().Draw(t, "am") {
 		c.AllowMethods = rapid.SliceOfN(rapid.SampledFrom([]string{"GET", "POST", "PUT", "DELETE"}), 1, 3).Draw(t, "methods")
@@ -318,7 +318,8 @@ func genCase(t *rapid.T) Case {
 	case 1:
 		c.Origin = ""
 	case 2:
-		c.Origin = rapid.SampledFrom([]string{"https://func.test", "http://func.test:81", "HTTPS://FUNC.TEST"}).Draw(t, "fo")
+		// (the last two: capitals outside ASCII - "in lower case" is not an ASCII-only notion)
+		c.Origin = rapid.SampledFrom([]string{"https://func.test", "http://func.test:81", "HTTPS://FUNC.TEST", "https://M\u00dcNCHEN.func.test", "https://m\u00fcnchen.func.test"}).Draw(t, "fo")
 	}
 	if c.Method == "OPTIONS" && rapid.IntRange(0, 3).Draw(t, "pre") != 0 {
 		c.ACRM = rapid.SampledFrom([]string{"PUT", "GET", "DELETE"}).Draw(t, "acrm")
